@@ -1,8 +1,9 @@
 #!/bin/bash
-# Reverts each "fix:" commit of /repo in turn (working tree only) and expects the named check to go red (exit 1).
+# Reverts each "fix:" commit of the repository in turn (working tree only) and expects the named check to go red (exit 1).
 # usage: vf/selftest_fixes.sh [tier]
 TIER=${1:-quick}
-cd /repo && git diff --quiet || { echo "/repo not clean"; exit 3; }
+R=${VERIF_REPO:-/repo}   # a scratch worktree of /repo at the same commit may be named instead
+cd $R && git diff --quiet || { echo "$R not clean"; exit 3; }
 MAP=$(mktemp /var/tmp/verif-fixmap.XXXXXX)
 python3 - <<'P' > $MAP
 import json
@@ -13,9 +14,9 @@ for f in json.load(open('/verif/known_findings.json'))['findings']:
 P
 fail=0
 while read c p; do
-  if ! git -C /repo revert -n $c >/dev/null 2>&1; then echo "$c $p: revert does not apply cleanly (skipped)"; git -C /repo revert --abort 2>/dev/null; git -C /repo reset -q --hard HEAD; continue; fi
-  out=$(cd /verif && ./check $p --tier $TIER --no-evidence 2>&1); rc=$?
-  git -C /repo revert --abort 2>/dev/null; git -C /repo reset -q --hard HEAD
+  if ! git -C $R revert -n $c >/dev/null 2>&1; then echo "$c $p: revert does not apply cleanly (skipped)"; git -C $R revert --abort 2>/dev/null; git -C $R reset -q --hard HEAD; continue; fi
+  out=$(cd /verif && VERIF_REPO=$R ./check $p --tier $TIER --no-evidence 2>&1); rc=$?
+  git -C $R revert --abort 2>/dev/null; git -C $R reset -q --hard HEAD
   if [ $rc -eq 1 ] && echo "$out" | grep -q "^VIOLATION property=$p"; then echo "$c $p: RED as expected ($(echo "$out" | grep -c '^VIOLATION') violations)"; else echo "$c $p: NOT detected (exit $rc)"; fail=1; fi
 done < $MAP
 rm -f $MAP
